@@ -122,16 +122,33 @@ def run_one(mod_id, tier, scn_name, trace, keep_text=False):
     return v
 
 
+_cov = None
+_cov_n = 0
+
+
 def _work(chunk):
+    global _cov_n
     mod_id, tier, scn_name, traces = chunk
     out = []
     for t in traces:
         out.append(run_one(mod_id, tier, scn_name, t))
+    if _cov is not None:
+        _cov_n += 1
+        if _cov_n % 10 == 0 or len(traces) < 24:
+            _cov.save()
     return out
 
 
 def _init_worker():
+    global _cov
     os.environ['PYTHONHASHSEED'] = os.environ.get('PYTHONHASHSEED', '0')
+    if os.environ.get('T4MC_COVERAGE'):
+        # development aid (tools/blindspots.sh): which lines of the converter do the generated decks reach
+        import coverage
+        repo = os.environ.get('T4MC_REPO', '/repo')
+        _cov = coverage.Coverage(data_file=os.path.join(os.environ['T4MC_COVERAGE'], 'cov'), data_suffix=True,
+                                 source=[os.path.join(repo, 't4_geom_convert'), os.path.join(repo, 'MIP')])
+        _cov.start()
     from . import env
     env.install()
 
